@@ -508,3 +508,67 @@ func encTimerScripts(r *gen.Rng, n int) {
 		runScript(fam, evs, delay)
 	}
 }
+
+// busyWriter is a carrier under back-pressure: it takes a large write in two halves, and between the halves the
+// process does other MQTT work (another stream decodes and encodes a packet of its own).  It never keeps p.
+type busyWriter struct {
+	wire    bytes.Buffer
+	between func()
+}
+
+func (b *busyWriter) Write(p []byte) (int, error) {
+	if len(p) < 1024 {
+		return b.wire.Write(p)
+	}
+	h := len(p) / 2
+	b.wire.Write(p[:h])
+	b.between()
+	b.wire.Write(p[h:])
+	return len(p), nil
+}
+
+// what the encoder hands to its writer stays the packet's encoding until the writer has taken it, whatever other
+// streams of the process do meanwhile (packets larger than the write buffer go to the carrier directly; so does the
+// rest of a packet that did not fit behind buffered ones)
+func encWhileOthersWork(r *gen.Rng, n int) {
+	for i := 0; i < n; i++ {
+		size := 4200 + r.Intn(6000)
+		out := &packet.Publish{Message: packet.Message{Topic: "out", Payload: bytes.Repeat([]byte{0xAA}, size)}}
+		other := &packet.Publish{Message: packet.Message{Topic: "other", Payload: bytes.Repeat([]byte{0xBB}, size+r.Intn(200))}}
+		enc := func(p packet.Generic) []byte {
+			b := make([]byte, p.Len())
+			p.Encode(b)
+			return b
+		}
+		otherWire, want := enc(other), enc(out)
+		bw := &busyWriter{}
+		bw.between = func() {
+			packet.NewDecoder(bytes.NewReader(otherWire)).Read()
+			var sink bytes.Buffer
+			e := packet.NewEncoder(&sink)
+			e.Write(other, false)
+		}
+		e := packet.NewEncoder(bw)
+		script := "Write(large, flushed)"
+		if r.Bool() {
+			small := &packet.Publish{Message: packet.Message{Topic: "s", Payload: []byte{1, 2, 3}}}
+			e.SetMaxWriteDelay(10 * time.Second)
+			e.Write(small, true)
+			want = append(enc(small), want...)
+			script = "Write(small, buffered); Write(large, buffered); Flush"
+			e.Write(out, true)
+			e.Flush()
+		} else {
+			e.Write(out, false)
+		}
+		w.Count("enc/while-others-work")
+		if got := bw.wire.Bytes(); !bytes.Equal(got, want) {
+			at := 0
+			for at < len(got) && at < len(want) && got[at] == want[at] {
+				at++
+			}
+			w.Monitor(prop, "wire-not-concat", fmt.Sprintf("%s with a carrier that takes the %d-byte packet in two halves while another stream decodes and encodes a packet: the wire differs from the encoding at offset %d of %d", script, len(want), at, len(want)),
+				[]string{script, "carrier: first half, other stream Read + Write, second half"})
+		}
+	}
+}
